@@ -315,6 +315,16 @@ def gen_file(rnd, fileno, name, opts, shared_exports=(), nstmt=None):
             cname = f"xk{fileno}all"
             stmts.insert(rnd.randrange(len(stmts) + 1), apm.assign(cname, apm.num(rnd.choice([0o100, 0o2000, 0o177776, 6]))))
             exported.append(cname)
+    elif len(exported) >= 2 and opts.get("extern_list", True) and rnd.random() < 0.25:
+        # the same exports through one '.extern a, b, c' (or two such directives) somewhere in the file
+        for st in stmts:
+            st.labels = [(n, "label" if kind == "extern" else kind) for n, kind in st.labels]
+        names = list(exported)
+        rnd.shuffle(names)
+        k = rnd.randrange(1, len(names)) if rnd.random() < 0.3 else len(names)
+        for group in (names[:k], names[k:]):
+            if group:
+                stmts.insert(rnd.choice([0, rnd.randrange(len(stmts) + 1), len(stmts)]), apm.extern(*group))
     ctx.labels = label_names
     ctx.exports = exported
     return apm.SrcFile(name, stmts), ctx
